@@ -5,6 +5,8 @@ package main
 
 import (
 	"fmt"
+	"sort"
+	"strings"
 	"go/types"
 	"net/url"
 	"reflect"
@@ -69,7 +71,49 @@ func init() {
 		}
 		return TupleV{e.fromNative(reflect.ValueOf(u), rt), IfaceV{}}
 	}
+	// nested sections of the flat store: the immediate children of a key
+	children := func(e *Exec, prefix string) []string {
+		prefix = strings.ToLower(prefix) + "."
+		seen := map[string]bool{}
+		var out []string
+		for k := range e.viper {
+			if strings.HasPrefix(k, prefix) {
+				c := k[len(prefix):]
+				if i := strings.IndexByte(c, '.'); i >= 0 {
+					c = c[:i]
+				}
+				if !seen[c] {
+					seen[c] = true
+					out = append(out, c)
+				}
+			}
+		}
+		sort.Strings(out)
+		return out
+	}
+	I["github.com/spf13/viper.GetStringMap"] = func(e *Exec, th *Thread, fn *ssa.Function, a []Value) Value {
+		e.nmap++
+		m := &MapV{id: e.nmap}
+		for _, c := range children(e, e.goString(a[0], "viper key")) {
+			m.entries = append(m.entries, &mapEntry{k: c, v: IfaceV{}})
+		}
+		return m
+	}
 	I["github.com/spf13/viper.GetStringMapString"] = func(e *Exec, th *Thread, fn *ssa.Function, a []Value) Value {
-		return (*MapV)(nil)
+		e.nmap++
+		m := &MapV{id: e.nmap}
+		key := e.goString(a[0], "viper key")
+		for _, c := range children(e, key) {
+			v, ok := e.viper[strings.ToLower(key)+"."+c]
+			if !ok {
+				continue
+			}
+			s, isStr := v.v.(string)
+			if !isStr {
+				panic(pathAbort{"error", "viper.GetStringMapString on a non-string value"})
+			}
+			m.entries = append(m.entries, &mapEntry{k: c, v: s})
+		}
+		return m
 	}
 }
